@@ -83,6 +83,17 @@ func (s *Server) HandlePutService(w http.ResponseWriter, r *http.Request) {
 
 	service.Metadata = *metadata
 
+	// The service may already exist under another entity ID, which must stop
+	// being registered once the record is replaced.
+	previous := Service{}
+	err = s.Store.Get(fmt.Sprintf("/services/%s", r.PathValue("id")), &previous)
+	replaces := err == nil
+	if err != nil && err != ErrNotFound {
+		s.logger.Printf("ERROR: %s", err)
+		http.Error(w, http.StatusText(http.StatusInternalServerError), http.StatusInternalServerError)
+		return
+	}
+
 	err = s.Store.Put(fmt.Sprintf("/services/%s", r.PathValue("id")), &service)
 	if err != nil {
 		s.logger.Printf("ERROR: %s", err)
@@ -91,6 +102,9 @@ func (s *Server) HandlePutService(w http.ResponseWriter, r *http.Request) {
 	}
 
 	s.idpConfigMu.Lock()
+	if replaces && previous.Metadata.EntityID != service.Metadata.EntityID {
+		delete(s.serviceProviders, previous.Metadata.EntityID)
+	}
 	s.serviceProviders[service.Metadata.EntityID] = &service.Metadata
 	s.idpConfigMu.Unlock()
 
